@@ -66,7 +66,10 @@ TSingleParts(rparts, first, p) ==
   IF rparts = << >> THEN << >>
   ELSE LET part == Head(rparts)
            tail == IF first THEN << >> ELSE << O("Add", p) >>
-       IN (IF part.pk = "s" THEN << OVal(StrV(part.s), p) >> ELSE TE(part.x, p) \o << O("Render", p) >>)
+       (* an embedded @{expr} is tokenised and parsed from the template text on its   *)
+       (* own (format.rs consume_expr): its ops carry positions inside that text,     *)
+       (* not in the file - modelled as position 0 ("not a statement of the file")    *)
+       IN (IF part.pk = "s" THEN << OVal(StrV(part.s), p) >> ELSE TE(part.x, 0) \o << O("Render", p) >>)
             \o tail \o TSingleParts(Tail(rparts), FALSE, p)
 
 TE(e, p) ==
